@@ -13,12 +13,16 @@ META = {
             "(loading with file-set expansion, buildNode's memo / action digest / cache get + checkSameBuilt / "
             "remove-before-execute / put-after-success, fileSet.build, bundle.build) for ALL histories of source "
             "edits, rule edits, output tampering/deletion and successful or failed builds of any target lists: "
-            "the cache invariant is preserved by every step; a successful build leaves exactly the outputs of a "
-            "build from an empty out/ for every reachable rule; a rebuild with nothing changed executes nothing; a "
-            "rule executes exactly when its current action digest has no valid cache entry; a failed rule has no "
-            "cache entry.  The model is tied to the code on every run by replaying generated histories against "
-            "the real caco3.Builder (executed rules and the whole out/ tree compared inside Coq after every "
-            "build) and by the implementation-only oracle incremental out/ == from-scratch out/.",
+            "the cache invariant (an entry whose outputs still carry the recorded stamps holds what the action with "
+            "that digest wrote) is preserved by every step; equal action digests give equal outputs in any two "
+            "configurations; a successful build leaves, for every reachable rule, exactly the output of a build "
+            "from an empty out/, which also succeeds; a rebuild with nothing changed executes nothing and changes "
+            "nothing; a rule executes iff its current digest has no valid cache entry, a file set is re-executed "
+            "iff its digest changed and unchanged rules are not rebuilt; a failed rule has no cache entry.  The "
+            "model is tied to the code on every run by replaying generated histories against the real "
+            "caco3.Builder (result, executed rules and the whole out/ tree compared inside Coq after every build), "
+            "by statement skeletons and struct layouts regenerated from the source, and by the "
+            "implementation-only oracle incremental out/ == from-scratch out/.",
     "note": "Trusted: Coq kernel + vm_compute; harness/cmd/c10 + checks/c10.py; SHA-256 modelled as the structured "
             "value hashed (collision-freeness); an output write always leaves a new (size, mtime, mode) "
             "(strictly increasing stamp); 'edit => new mtime, size or mode' as in the property's wording; cache "
